@@ -82,9 +82,38 @@ theorem run_refines (o : Ops V) (ops : List (Op V)) (st : St V) (h : Inv n st)
     rw [h2]
     exact this
 
+/-- the empty string is not a `#` name -/
+theorem isHash_empty : isHash "" = false := by decide +kernel
+
+/-- a name that is neither listed before `operate(str)` nor a token of the expression is not listed after the
+evaluation (before the purge) either — used for the empty name -/
+theorem evaluate_no_new_name (o : Ops V) (rpn : List String) (st : St V) (h : Inv n st) (m : String)
+    (hm : m ∉ names st) (hrpn : m ∉ rpn) (hh : isHash m = false) : m ∉ names (evaluate o rpn st).2 := by
+  have hev := sim_evaluate (n := n) o rpn st h
+  have hsame := (frame_evaluate o rpn (abs st)).1
+  rw [hev.2.1] at hsame
+  simp only at hsame
+  have hT : ¬ exprT rpn m := by
+    intro ht
+    rcases ht with ⟨h1, _⟩ | h2
+    · exact hrpn h1
+    · rw [hh] at h2; cases h2
+  have hl := hsame.cols m hT
+  intro hmem
+  have h1 : (lookup (abs (evaluate o rpn st).2).cols m).isSome = true := by
+    apply lookup_isSome_of_mem
+    have := names_abs (evaluate o rpn st).2
+    unfold anames at this
+    rw [this]; exact hmem
+  rw [hl, abs_lookup, find_none_of_not_mem _ _ hm] at h1
+  cases h1
+
 /-- T4: after `operate(str)` no listed name starts with `#`, for every RPN token list, whether the
-evaluation returned or raised (the purge sits in a `finally`), including `#` names listed before the call. -/
-theorem no_temporaries (o : Ops V) (rpn : List String) (st : St V) (h : Inv n st) :
+evaluation returned or raised (the purge sits in a `finally`), including `#` names listed before the call —
+provided the empty string is neither a listed feature name nor a token: Python tests `af[0] == "#"`, which
+raises IndexError on the empty name and stops the purge (see `empty_name_stops_purge` below). -/
+theorem no_temporaries (o : Ops V) (rpn : List String) (st : St V) (h : Inv n st)
+    (hne : "" ∉ names st) (hrpn : "" ∉ rpn) :
     ∀ nm ∈ names (step o (.expr rpn) st).2, isHash nm = false := by
   have hsim := sim_step (n := n) o (.expr rpn) trivial st h
   -- the state after evaluation (before the purge) is aligned, hence has distinct names
@@ -98,7 +127,16 @@ theorem no_temporaries (o : Ops V) (rpn : List String) (st : St V) (h : Inv n st
     simp only at e2
     rw [e2, hev.2.1]
   have hnd : (anames (abs (evaluate o rpn st).2)).Nodup := by rw [names_abs]; exact hev.1.nodup
-  rw [purge_spec _ hnd] at habs
+  have hnempty : ∀ x ∈ anames (abs (evaluate o rpn st).2), x.isEmpty = false := by
+    intro x hx
+    rw [names_abs] at hx
+    cases hxe : x.isEmpty with
+    | false => rfl
+    | true =>
+      have : x = "" := String.isEmpty_iff.mp hxe
+      subst this
+      exact absurd hx (evaluate_no_new_name o rpn st h "" hne hrpn isHash_empty)
+  rw [purge_spec _ hnd hnempty] at habs
   intro nm hnm
   rw [← names_abs, habs] at hnm
   simp only [anames, List.mem_map, List.mem_filter] at hnm
@@ -336,7 +374,14 @@ theorem unaryVoid_read_back (o : Ops V) (k : UOp) (inp : String) (out : Option S
 /-- integer arithmetic, `-1000` standing for NaN; only the literals `2` and `3` parse -/
 def iops : Ops Int :=
   { zero := 0, nan := -1000, add := (· + ·), sub := (· - ·), mul := (· * ·), ofNat := Int.ofNat,
-    isNaN := fun v => v == -1000, parse := fun s => if s == "2" then some 2 else if s == "3" then some 3 else none }
+    isNaN := fun v => v == -1000, parse := fun s => if s == "2" then some 2 else if s == "3" then some 3 else none,
+    one := 1, div := (· / ·), isZero := fun v => v == 0,
+    pow := fun a b => if b < 0 then (if a == 0 then .error .zerodiv else .ok 0) else .ok (a ^ b.toNat),
+    mod := fun a b => if b == 0 then .error .zerodiv else .ok (a % b),
+    lt := fun a b => decide (a < b),
+    fn := fun f v => if f == "SQRT" && v < 0 then .error .value else .ok (if f == "ABS" then Int.ofNat v.natAbs else v),
+    agg := fun f l => if f == "AVG" && l.isEmpty then .error .zerodiv else .ok (l.foldl (· + ·) 0),
+    shiftIdx := fun k i m => if m == 0 then .error .zerodiv else .ok ((((i : Int) - k) % (m : Int)).toNat) }
 
 def t0 : St Int := fresh [10, 11, 12] [20, 22, 24] [30, 33, 36] [1000, 1001, 1002]
 
